@@ -99,6 +99,35 @@ def _back(fn, local):
     return seen
 
 
+def write_forms(F, rep, forms, rule):
+    """Every emission site of a name-writing opcode with a user-name operand is matched against rules/const_forms.json."""
+    # ---- 1. enumerate ---------------------------------------------------------------------------------
+    sites = emission_sites(F)
+    rep.floor(rule + " emission sites", len(sites), 25)
+    table = {(e["function"], e["opcode"], tuple(e["operands"])): e for e in forms["sites"]}
+    used_forms = set()
+    for f, opc, kinds, span in sites:
+        fshort = mir.short(f.path)
+        if kinds and all(k in ("temp", "function-id") for k in kinds):
+            rep.ob(rule, "%s emits %s %s" % (fshort, opc, list(kinds)), "exempt",
+                   "operand is a compiler temporary / generated id (its spelling is not an identifier)", span, fn=f.path,
+                   key=rule + "|%s|%s|%s" % (fshort, opc, ",".join(kinds)))
+            continue
+        e = table.get((fshort, opc, kinds))
+        key = rule + "|%s|%s|%s" % (fshort, opc, ",".join(kinds))
+        if e is None:
+            rep.ob(rule, "%s emits %s %s" % (fshort, opc, list(kinds)), "violated",
+                   "new write form: a name-writing instruction with a user-name operand is emitted here but is not mapped to a const-checked "
+                   "form (rules/const_forms.json)", span, fn=f.path, key=key)
+        elif "exempt" in e:
+            rep.ob(rule, "%s emits %s %s" % (fshort, opc, list(kinds)), "exempt", e["exempt"], span, fn=f.path, key=key)
+        else:
+            used_forms.add(e["form"])
+            rep.ob(rule, "%s emits %s %s -> form `%s`" % (fshort, opc, list(kinds), e["form"]), "ok", "", span, fn=f.path, key=key)
+
+    return used_forms
+
+
 def run(ctx, rep):
     F = ctx.facts("default", ["bytecode", "compiler"])
     forms = ctx.rules("const_forms.json")
@@ -107,29 +136,7 @@ def run(ctx, rep):
                 "as a guarded-by rule on the parser function's MIR (conditional on the looked-up name having existed).")
     rep.assume("scoping: which scopes a name lookup searches (has_name_been_mapped_in_function etc.) is taken as given")
 
-    # ---- 1. enumerate ---------------------------------------------------------------------------------
-    sites = emission_sites(F)
-    rep.floor("C10.write-op emission sites", len(sites), 25)
-    table = {(e["function"], e["opcode"], tuple(e["operands"])): e for e in forms["sites"]}
-    used_forms = set()
-    for f, opc, kinds, span in sites:
-        fshort = mir.short(f.path)
-        if kinds and all(k in ("temp", "function-id") for k in kinds):
-            rep.ob("C10.write-forms", "%s emits %s %s" % (fshort, opc, list(kinds)), "exempt",
-                   "operand is a compiler temporary / generated id (its spelling is not an identifier)", span, fn=f.path,
-                   key="C10.write-forms|%s|%s|%s" % (fshort, opc, ",".join(kinds)))
-            continue
-        e = table.get((fshort, opc, kinds))
-        key = "C10.write-forms|%s|%s|%s" % (fshort, opc, ",".join(kinds))
-        if e is None:
-            rep.ob("C10.write-forms", "%s emits %s %s" % (fshort, opc, list(kinds)), "violated",
-                   "new write form: a name-writing instruction with a user-name operand is emitted here but is not mapped to a const-checked "
-                   "form (rules/const_forms.json)", span, fn=f.path, key=key)
-        elif "exempt" in e:
-            rep.ob("C10.write-forms", "%s emits %s %s" % (fshort, opc, list(kinds)), "exempt", e["exempt"], span, fn=f.path, key=key)
-        else:
-            used_forms.add(e["form"])
-            rep.ob("C10.write-forms", "%s emits %s %s -> form `%s`" % (fshort, opc, list(kinds), e["form"]), "ok", "", span, fn=f.path, key=key)
+    used_forms = write_forms(F, rep, forms, "C10.write-forms")
 
     # ---- 2. guards ---------------------------------------------------------------------------------------
     is_ident_opt = lambda ty: "core::option::Option<compiler::ast::ident::Ident>" in ty or "core::option::Option<&compiler::ast::ident::Ident>" in ty
